@@ -10,10 +10,10 @@ CHECKS = {
  "C10": ("lockset dataflow on SSA (sets of lock configurations) + lock-identity + who-may-call on syscalls",
          "Decides the lock discipline that linearizability of the in-memory disk rests on, for every interleaving: each element read under the mutex (R/W), each element write under W, released on every exit including panics, the mutex is shared (not a per-call copy); the file disk transfers data only by pread/pwrite and has no mutable shared state. Level 'other'.",
          "Linearizability itself and kernel atomicity of pread/pwrite are not decided; sync.RWMutex is trusted.", "DESIGN.md §4 C10"),
- "C01": ("table extraction from SSA (operator, op-assign, width, literal and type-name tables) compared with each other and with the reference GooseLang notation; pass-through audit; let-scope rules shared with C05",
+ "C01": ("table extraction from SSA (operator, op-assign, width, literal and type-name tables) compared with each other and with the reference GooseLang notation; pass-through audit; reference vocabulary of emitted library and type names, kind-specific names only under a dominating go/types fact, operand order, full primitive table; let-scope rules shared with C05",
          "Decides necessary conditions of meaning preservation that hold for every program at once: each Go operator is printed with GooseLang's notation for it, op-assign agrees with the plain operator, + is append exactly for strings, integer widths/literals/type names/conversions are consistent, and every handler that translates a construct as its operand is audited. Level 'other': the semantic equality itself needs GooseLang's semantics (Perennial) and is not decided.",
          "GooseLang semantics are outside the repository. Four known findings (type assertion dropped, integer conversion pass-through, two let-scope leaks).", "DESIGN.md §4 C01"),
- "C02": ("interprocedural AST-field consumption analysis on SSA (per node value, summaries to a fixpoint), slice-arity bounds from must-facts, path-enumerated token dispatch (tables in any shape), enumeration of spelling comparisons against resolved recognisers found by role, control-effect facts, multi-result agreement of binding constructions",
+ "C02": ("interprocedural AST-field consumption analysis on SSA (per node value, summaries to a fixpoint), slice-arity bounds from must-facts, path-enumerated token dispatch (tables in any shape), enumeration of spelling comparisons against resolved recognisers found by role, control-effect facts, multi-result agreement of binding constructions, dead-placeholder analysis (a placeholder is returned only after a diverging rejection, for an absent input or on an infeasible path), definite assignment of every sub-term field of the syntax nodes the translator builds",
          "Decides for every input program at once the translator-side conditions of reject-or-translate: every meaning-carrying field of every inspected go/ast node is read by a guard or a translation, constant indices cover their slices, token dispatch has no silent default, meaning is not chosen by spelling where a predeclared name is meant, and return/break/continue are translated only where their control effect is available (with a sound must-end analysis). Level 'other'.",
          "That an accepted construct's translation includes Go's behaviour is C01's semantic core. Known findings: type-assertion type ignored, package/type look-alikes by spelling (one entry per class and literal).", "DESIGN.md §4 C02"),
  "C03": ("path-enumerated case tables of the sync translators (switches or constant package-level maps) compared with the reference library mapping; positive abstract paths of the recognisers; dispatch-order facts; spawn-shape facts on the abstract paths of the go-statement translation",
@@ -22,13 +22,13 @@ CHECKS = {
  "C04": ("name-provenance classification at global-reference sinks paired with addDep on all paths (SSA), registration dominance at every spec-to-declaration producer call, CFG facts of the emission function (found by role), path-sensitive ok-discipline of (info, ok) lookups",
          "Decides, for every input program at once, the translator-side necessary conditions of defined-before-use and unique naming: every emitted same-package global reference is paired with dependency recording on every path, definition names are registered in their final form, the emission closure marks, visits every recorded dependency unconditionally and only then appends, method names come from one function. Level 'other'.",
          "Coq accepting the file is not decided. One known finding (T__m collision).", "DESIGN.md §4 C04"),
- "C05": ("per-path delimiter balance of every printer function, needs_paren classification of every emitter, taint from Go text to Coq string/comment sinks with value-specific guard facts, control-dependence of configuration flags",
+ "C05": ("per-path delimiter balance of every printer function, needs_paren classification of every emitter, taint from Go text to Coq string/comment sinks with value-specific guard facts, control-dependence of configuration flags, cross-check of sibling printers (path signatures of text-buffer operations), sentence shape of declaration printers",
          "Decides by structural induction over the printer (every emitter balanced given balanced holes, every emitter honours/passes needs_paren or is closed/atomic) and by taint analysis that source text reaches Coq strings only under a no-quote fact for that value and comments only through the two-pass sanitiser, that flags cannot influence bodies and that no declaration text is used as a term. Level 'other'.",
          "Coq's actual parser is not run; its documented lexical rules are used. Three known findings (for-init and non-tail block scope leak, quotes inside comments).", "DESIGN.md §4 C05"),
  "C06": ("map-range idiom classification, global-store and mutating-method scan, goroutine capture analysis (own-slot writes, per-iteration captured index), ambient-source and channel-receive who-may-call, with a positive-control package",
          "Decides the structural causes of non-determinism and cross-package influence for every run and schedule: no order-sensitive map iteration, package-level state immutable after init, workers write only their own slot and follow the WaitGroup protocol, no clock/random/env sources, sort before emit, the command writes a package's file depending only on that package's error. Level 'other'.",
          "Races inside go/packages/go/types are not decided (documented concurrency-safe).", "DESIGN.md §4 C06"),
- "C07": ("call-graph recover discipline + audited enumeration of every potential run-time panic site (raw panics, single-result assertions, constant and variable indices, slice bounds, partial helpers, partial accessors of go/constant, nil-returning accessors of go/types, nil packages, nil-able AST fields, binding arity) with automatic discharge by must-facts (length bounds, nil/kind/type tests, caller-established facts), structural invariants and construct-keyed audit tables",
+ "C07": ("call-graph recover discipline + audited enumeration of every potential run-time panic site (raw panics, single-result assertions, constant and variable indices, slice bounds, partial helpers, partial accessors of go/constant, nil-returning accessors of go/types, nil packages, nil-able AST fields, binding arity) with automatic discharge by must-facts (length bounds, nil/kind/type tests, caller-established facts), structural invariants and construct-keyed audit tables; completeness of context and types.Info literals; the deferred recoverer stores or re-panics on every path",
          "Decides for all type-correct inputs that a structured error is always recovered, and that every raw panic, single-result type assertion, constant slice index, partial-helper call, nil go/types package and documented-nil go/ast field in the translator and printer is guarded or justified by a named go/ast / go/types / Go-typing invariant; new unaudited sites fail. Also categories, positions and error aggregation. Level 'other'.",
          "Termination and panics inside dependencies are not decided; the invariant tables are reviewed by hand and listed in the evidence.", "DESIGN.md §4 C07"),
  "C08": ("table extraction from init SSA, callback-shape facts (packages.Visit pre/post), path enumeration of header/footer, structural keys of the emitted Require and file paths on abstract paths (every occurrence of the import path lies inside the one path mapping)",
@@ -37,13 +37,13 @@ CHECKS = {
  "C11": ("path enumeration with branch facts (error/count result discipline), must-pass-through (fsync), unit-aware open-path rule",
          "Decides for every path through every system call of the file disk that a failure cannot reach a normal return (error tested or returned; pread/pwrite count proven equal to the block size), that Barrier/Close pass through fsync/close of the disk's descriptor on every returning path, and that a successful open either resizes a regular file to numBlocks*BlockSize bytes or proved that size in bytes, with O_CREAT|O_RDWR and without O_TRUNC. Level 'other'.",
          "Durability on hardware and crash recovery are not decided; documented syscall semantics trusted.", "DESIGN.md §4 C11"),
- "C12": ("alias/provenance flow on SSA, must-facts (create-only-when-absent), sibling shape, origin analysis of the listing result",
+ "C12": ("alias/provenance flow on SSA, must-facts (create-only-when-absent, result constant under the existence fact), sibling shape, origin analysis of the listing result",
          "Decides necessary structural clauses of the reference model for all histories: descriptors come from a fresh allocation, caller/returned byte slices never alias stored contents, Create updates nothing when the name exists, ReadAt returns buf[:n] of a fresh buffer from the requested offset, Link shares the inode, Delete removes only the directory entry, wrappers forward, AtomicCreate installs exactly the data. Level 'other'.",
          "Equality with a reference model over all histories is not decided. One known finding (MemFs.Open shares the creator's descriptor).", "DESIGN.md §4 C12"),
- "C13": ("protocol-order dominance + path enumeration, write-all loop idiom, flag and path-provenance checks",
+ "C13": ("protocol-order dominance + path enumeration, write-all loop idioms (remaining slice, offset), flag and path-provenance checks, shared non-zero counter step",
          "Decides on every normally returning path of the directory-backed AtomicCreate the order openat(staging) < write-all < fsync < renameat, every error checked, staging file starts empty, rename source is the staging path, staging path unique per call; and that the in-memory version installs a private complete copy under a fresh inode. Level 'other'.",
          "Host-filesystem crash atomicity and rename atomicity are trusted, not decided.", "DESIGN.md §4 C13"),
- "C14": ("lockset dataflow with interprocedural helper entry states, allocator freshness idiom, flag checks",
+ "C14": ("lockset dataflow with interprocedural helper entry states, allocator freshness idiom (every allocated number inserted before return), flag checks",
          "Decides for every interleaving the lock discipline of the in-memory filesystem (all map reads/writes under its mutex, helpers only called with it held, released on every exit incl. panics), that the inode allocator is fresh (insert-only contents map, len+1), that DirFs.Create is a single O_CREAT|O_EXCL openat and DirFs has no in-process shared state. Level 'other'.",
          "Linearizability against the model and kernel atomicity are not decided.", "DESIGN.md §4 C14"),
  "C15": ("idiom recognition over the resolved program (delegation to encoding/binary.LittleEndian or explicit little-endian lane map)",
@@ -52,10 +52,10 @@ CHECKS = {
  "C16": ("idiom recognition + exhaustive two-valued CFG evaluation (Assume/Assert)",
          "Decides canonical-decimal formatting of the uint64 parameter, delete-all MapClear (clear builtin), Assume/Assert panic iff the argument is false by exhaustive evaluation of their CFG for c in {true,false}, and the forwarding shape of WaitTimeout/NewProph/Sleep. Level 'other'.",
          "WaitTimeout's timing and lock state live in another module and are timing dependent: not decided.", "DESIGN.md §4 C16"),
- "C17": ("abstract interprocedural paths of translate/TranslatePackages/the file writer (helpers spliced in, loop state symbolic so that a one-iteration path is an inductive step) for exit status, write gating, file placement, compare-before-write and loading; phi-structure of the error flag; table extraction of loader config and flag wiring",
+ "C17": ("abstract interprocedural paths of translate/TranslatePackages/the file writer (helpers spliced in, loop state symbolic so that a one-iteration path is an inductive step) for exit status, write gating, file placement, compare-before-write and loading; phi-structure of the error flag or integer status; exit status as what reaches os.Exit (directly or as the returned status); dominance of flag.Parse; table extraction of loader config and flag wiring",
          "Decides that the exit status is non-zero iff some package failed (monotone flag, return only on flag false, every os.Exit non-zero), that every clean package is written and a failed one only under -ignore-errors, at path.Join(out, ImportToPath(pkg path)), unchanged files are not rewritten and changed ones are written by os.WriteFile, the loader uses -tags goose / Dir / unchanged patterns, and the partial file carries the declarations that translated. Level 'other'.",
          "What go/packages matches and file-system effects are not decided.", "DESIGN.md §4 C17"),
- "C18": ("regular-language equivalence (regexp/syntax -> NFA -> simultaneous subset construction) of the two generators' patterns; facts and ordered events on the abstract interprocedural paths of main (generators identified by the pattern they apply; suffix predicates incl. table-driven helpers) for filters and emissions",
+ "C18": ("regular-language equivalence (regexp/syntax -> NFA -> simultaneous subset construction) of the two generators' patterns; facts and ordered events on the abstract interprocedural paths of main (generators identified by what they write; callbacks spliced in; suffix predicates incl. table-driven helpers) for filters, scan loop and emissions (symbolic reconstruction of the matched name); the generated Go text is assembled from the constant templates, parsed (go/parser), resolved, and type-checked against the semantics package through a go/packages overlay (go/types; nothing is executed)",
          "Decides that both generators match exactly the same lines (language equivalence of the two regex literals and of their groups, name reconstruction), apply the same file filter, emit exactly one test per match with Fail iff the failing group is non-empty, and truncate the output file. Level 'other'.",
          "Matches inside raw strings/block comments are a shared limitation of the line-regex approach: not decided.", "DESIGN.md §4 C18"),
 }
